@@ -506,7 +506,7 @@ Definition b64_strict (s : ustring) : bool :=
   let p := b64_data_len s in
   match Nat.modulo (fst p) 4%nat, snd p with
   | O, [] => true
-  | S (S O), [61; 61] => true
-  | S (S (S O)), [61] => true
+  | S (S O), [c1; c2] => (c1 =? 61) && (c2 =? 61)
+  | S (S (S O)), [c1] => (c1 =? 61)
   | _, _ => false
   end.
